@@ -883,6 +883,17 @@ Proof.
   reflexivity.
 Qed.
 
+Lemma filter_all {A} (q : A -> bool) l : (forall y, In y l -> q y = true) -> filter q l = l.
+Proof.
+  induction l as [|x l IH]; intros H; [reflexivity|]. cbn [filter].
+  rewrite (H x (or_introl eq_refl)), IH; [reflexivity|]. intros y Hy. apply H. right. exact Hy.
+Qed.
+Lemma filter_none {A} (q : A -> bool) l : (forall y, In y l -> q y = false) -> filter q l = [].
+Proof.
+  induction l as [|x l IH]; intros H; [reflexivity|]. cbn [filter].
+  rewrite (H x (or_introl eq_refl)), IH; [reflexivity|]. intros y Hy. apply H. right. exact Hy.
+Qed.
+
 Lemma concat_map_filter {A B} (g : A -> list B) p q (l : list A) :
   (forall x, In x l -> forall y, In y (g x) -> q y = p x) ->
   concat (map g (filter p l)) = filter q (concat (map g l)).
@@ -891,7 +902,1008 @@ Proof.
   cbn [filter map concat]. rewrite filter_app, <- IH by (intros y Hy; apply H; right; exact Hy).
   assert (Hx : forall y, In y (g x) -> q y = p x) by (apply H; left; reflexivity).
   destruct (p x).
-  - cbn [map concat]. f_equal. symmetry. apply forallb_filter_id.
-    apply forallb_forall. exact Hx.
-  - rewrite (proj2 (filter_nil_iff _ _ (g x))); [reflexivity|]. exact Hx.
+  - cbn [map concat]. rewrite (filter_all q (g x) Hx). reflexivity.
+  - rewrite (filter_none q (g x) Hx). reflexivity.
+Qed.
+
+Corollary olog_remove_seg_ids (d : disk) id seq :
+  NoDup (map f_seq (d_segs d)) ->
+  (forall x, In x (d_segs d) -> f_id x = id -> f_seq x = seq) ->
+  olog (apply_ev flat_ops d (ERemove (FSeg id seq))) =
+  filter (fun e => negb (fst (fst e) =? id)) (olog d).
+Proof.
+  intros Hnd Hseq. rewrite olog_remove_seg by exact Hnd. unfold olog.
+  apply concat_map_filter. intros x Hx e He.
+  apply (proj1 (dby_seq_In _ _)) in Hx. apply (proj1 (dseg_entries_In _ _)) in He.
+  destruct He as [-> _]. unfold is_seg. destruct (N.eqb_spec (f_id x) id) as [E|_]; [|reflexivity].
+  rewrite (Hseq x Hx E), N.eqb_refl. reflexivity.
+Qed.
+
+(* ================================================================================================ *)
+(* 4. The specification maps; abs and ptr_of as folds                                                *)
+Lemma key_eqb_sym a b : key_eqb a b = key_eqb b a.
+Proof.
+  destruct (key_eqb b a) eqn:E.
+  - apply key_eqb_eq in E. subst. apply key_eqb_refl.
+  - apply key_eqb_neq in E. apply key_eqb_neq. congruence.
+Qed.
+
+Lemma sget_sdel m k k' : sget (sdel m k) k' = if key_eqb k' k then None else sget m k'.
+Proof.
+  induction m as [|[a v] m IH]; cbn [sdel sget].
+  - destruct (key_eqb k' k); reflexivity.
+  - destruct (key_eqb k a) eqn:Eka.
+    + apply key_eqb_eq in Eka. subst a. rewrite IH. destruct (key_eqb k' k); reflexivity.
+    + cbn [sget]. rewrite IH. destruct (key_eqb k' a) eqn:Ek'a; [|reflexivity].
+      apply key_eqb_eq in Ek'a. subst a. rewrite key_eqb_sym, Eka. reflexivity.
+Qed.
+
+Lemma sget_sput m k v k' : sget (sput m k v) k' = if key_eqb k' k then Some v else sget m k'.
+Proof.
+  unfold sput. cbn [sget]. destruct (key_eqb k' k) eqn:E; [reflexivity|].
+  rewrite sget_sdel, E. reflexivity.
+Qed.
+
+Lemma sdel_In m k x v : In (x, v) (sdel m k) <-> In (x, v) m /\ x <> k.
+Proof.
+  induction m as [|[a w] m IH]; cbn [sdel].
+  - split; [intros []|intros [[] _]].
+  - destruct (key_eqb k a) eqn:E.
+    + apply key_eqb_eq in E. subst a. rewrite IH. split.
+      * intros [H1 H2]. split; [right; exact H1|exact H2].
+      * intros [[H1|H1] H2]; [inversion H1; congruence|split; assumption].
+    + apply key_eqb_neq in E. cbn [In]. rewrite IH. split.
+      * intros [H|[H1 H2]]; [inversion H; subst; split; [left; reflexivity|congruence]|split; [right; exact H1|exact H2]].
+      * intros [[H1|H1] H2]; [left; exact H1|right; split; assumption].
+Qed.
+
+Lemma sdel_keys m k x : In x (map fst (sdel m k)) <-> In x (map fst m) /\ x <> k.
+Proof.
+  rewrite !in_map_iff. split.
+  - intros ([a v] & <- & H). apply sdel_In in H. cbn [fst]. split; [|apply H].
+    exists (a, v). split; [reflexivity|apply H].
+  - intros (([a v] & <- & H) & Hne). cbn [fst] in Hne. exists (a, v). split; [reflexivity|].
+    apply sdel_In. split; assumption.
+Qed.
+
+Lemma NoDup_sdel m k : NoDup (map fst m) -> NoDup (map fst (sdel m k)).
+Proof.
+  induction m as [|[a v] m IH]; intros Hnd; [constructor|].
+  cbn [map fst] in Hnd. inversion Hnd as [|? ? Ha Hnd']; subst. cbn [sdel].
+  destruct (key_eqb k a); [apply IH; exact Hnd'|].
+  cbn [map fst]. constructor; [|apply IH; exact Hnd'].
+  intros H. apply sdel_keys in H. apply Ha. apply H.
+Qed.
+
+Lemma NoDup_sput m k v : NoDup (map fst m) -> NoDup (map fst (sput m k v)).
+Proof.
+  intros Hnd. unfold sput. cbn [map fst]. constructor; [|apply NoDup_sdel; exact Hnd].
+  intros H. apply sdel_keys in H. destruct H as [_ H]. congruence.
+Qed.
+
+Lemma sget_None m k : sget m k = None <-> ~ In k (map fst m).
+Proof.
+  induction m as [|[a v] m IH]; cbn [sget map fst In].
+  - split; [intros _ []|reflexivity].
+  - destruct (key_eqb k a) eqn:E.
+    + apply key_eqb_eq in E. subst a. split; [discriminate|]. intros H. exfalso. apply H. left. reflexivity.
+    + apply key_eqb_neq in E. rewrite IH. split; intros H.
+      * intros [H1|H1]; [congruence|exact (H H1)].
+      * intros H1. apply H. right. exact H1.
+Qed.
+
+Lemma sget_In m k v : NoDup (map fst m) -> (sget m k = Some v <-> In (k, v) m).
+Proof.
+  induction m as [|[a w] m IH]; intros Hnd; cbn [sget In].
+  - split; [discriminate|intros []].
+  - cbn [map fst] in Hnd. inversion Hnd as [|? ? Ha Hnd']; subst.
+    destruct (key_eqb k a) eqn:E.
+    + apply key_eqb_eq in E. subst a. split.
+      * intros H. inversion H; subst. left. reflexivity.
+      * intros [H|H]; [inversion H; reflexivity|]. exfalso. apply Ha.
+        apply (in_map fst) in H. exact H.
+    + apply key_eqb_neq in E. rewrite (IH Hnd'). split.
+      * intros H. right. exact H.
+      * intros [H|H]; [inversion H; congruence|exact H].
+Qed.
+
+Lemma shas_sget m k : shas m k = match sget m k with Some _ => true | None => false end.
+Proof. reflexivity. Qed.
+
+(* ---- the folds over an arbitrary list of entries ---- *)
+Definition absl (l : list entry) : smap := fold_left apply_rec l [].
+Definition ptrl (l : list entry) : key -> option (N * N) := fold_left upd_ptr l (fun _ => None).
+
+Lemma abs_eq d : abs d = absl (olog d). Proof. reflexivity. Qed.
+Lemma ptr_of_eq d : ptr_of d = ptrl (olog d). Proof. reflexivity. Qed.
+
+Lemma absl_snoc l e : absl (l ++ [e]) = apply_rec (absl l) e.
+Proof. unfold absl. rewrite fold_left_app. reflexivity. Qed.
+Lemma ptrl_snoc l e : ptrl (l ++ [e]) = upd_ptr (ptrl l) e.
+Proof. unfold ptrl. rewrite fold_left_app. reflexivity. Qed.
+
+Theorem abs_snoc d d' e : olog d' = olog d ++ [e] -> abs d' = apply_rec (abs d) e.
+Proof. intros H. rewrite !abs_eq, H. apply absl_snoc. Qed.
+Theorem ptr_of_snoc d d' e : olog d' = olog d ++ [e] -> ptr_of d' = upd_ptr (ptr_of d) e.
+Proof. intros H. rewrite !ptr_of_eq, H. apply ptrl_snoc. Qed.
+
+Lemma sget_apply_rec m e k :
+  sget (apply_rec m e) k =
+  if key_eqb k (rk (snd e)) then (if rdel (snd e) then None else Some (rv (snd e))) else sget m k.
+Proof.
+  unfold apply_rec. destruct (rdel (snd e)); [apply sget_sdel|apply sget_sput].
+Qed.
+
+Lemma NoDup_apply_rec m e : NoDup (map fst m) -> NoDup (map fst (apply_rec m e)).
+Proof. intros H. unfold apply_rec. destruct (rdel (snd e)); [apply NoDup_sdel|apply NoDup_sput]; exact H. Qed.
+
+Lemma absl_NoDup l : NoDup (map fst (absl l)).
+Proof.
+  induction l as [|e l IH] using rev_ind; [constructor|].
+  rewrite absl_snoc. apply NoDup_apply_rec. exact IH.
+Qed.
+
+Theorem abs_NoDup d : NoDup (map fst (abs d)).
+Proof. apply absl_NoDup. Qed.
+
+Lemma ptrl_absl l k :
+  (forall id off, ptrl l k = Some (id, off) ->
+     exists r, In (id, off, r) l /\ rk r = k /\ rdel r = false /\ sget (absl l) k = Some (rv r)) /\
+  (ptrl l k = None -> sget (absl l) k = None).
+Proof.
+  induction l as [|e l [IH1 IH2]] using rev_ind.
+  - split; [discriminate|reflexivity].
+  - rewrite ptrl_snoc, absl_snoc, sget_apply_rec. unfold upd_ptr.
+    destruct e as [[i o] r]; cbn [fst snd].
+    destruct (key_eqb k (rk r)) eqn:Ek.
+    + apply key_eqb_eq in Ek. destruct (rdel r) eqn:Ed.
+      * split; [discriminate|reflexivity].
+      * split; [|discriminate]. intros id off H. inversion H; subst id off. exists r.
+        repeat split; try assumption; [apply in_or_app; right; left; reflexivity|congruence].
+    + split; [|exact IH2]. intros id off H. destruct (IH1 id off H) as (r' & HIn & Hr').
+      exists r'. split; [apply in_or_app; left; exact HIn|exact Hr'].
+Qed.
+
+(* the index target of a key and the contents agree *)
+Theorem ptr_of_Some d k id off :
+  ptr_of d k = Some (id, off) ->
+  exists r, In (id, off, r) (olog d) /\ rk r = k /\ rdel r = false /\ sget (abs d) k = Some (rv r).
+Proof. apply (proj1 (ptrl_absl (olog d) k)). Qed.
+
+Theorem ptr_of_None d k : ptr_of d k = None -> sget (abs d) k = None.
+Proof. apply (proj2 (ptrl_absl (olog d) k)). Qed.
+
+Corollary ptr_of_None_iff d k : ptr_of d k = None <-> sget (abs d) k = None.
+Proof.
+  split; [apply ptr_of_None|]. intros H. destruct (ptr_of d k) as [[id off]|] eqn:E; [|reflexivity].
+  apply ptr_of_Some in E. destruct E as (r & _ & _ & _ & E). congruence.
+Qed.
+
+Lemma upd_ptr_eq p e k :
+  upd_ptr p e k = if key_eqb k (rk (snd e))
+                  then (if rdel (snd e) then None else Some (fst (fst e), snd (fst e))) else p k.
+Proof. reflexivity. Qed.
+
+(* ================================================================================================ *)
+(* 5. In-memory segment list                                                                          *)
+Lemma NoDup_map_inj {A B} (h : A -> B) l a b : NoDup (map h l) -> In a l -> In b l -> h a = h b -> a = b.
+Proof.
+  induction l as [|x l IH]; intros Hnd Ha Hb E; [destruct Ha|].
+  cbn [map] in Hnd. inversion Hnd as [|? ? Hx Hnd']; subst.
+  destruct Ha as [->|Ha], Hb as [->|Hb].
+  - reflexivity.
+  - exfalso. apply Hx. rewrite E. apply in_map. exact Hb.
+  - exfalso. apply Hx. rewrite <- E. apply in_map. exact Ha.
+  - apply IH; assumption.
+Qed.
+
+Lemma ids_increasing_NoDup l : ids_increasing l -> NoDup (map g_id l).
+Proof.
+  induction l as [|g l IH]; intros H; [constructor|].
+  destruct H as [Hg Hl]. cbn [map]. constructor; [|apply IH; exact Hl].
+  intros HIn. apply in_map_iff in HIn. destruct HIn as (g' & E & Hg'). pose proof (Hg g' Hg'). lia.
+Qed.
+
+Lemma ids_increasing_unique l a b : ids_increasing l -> In a l -> In b l -> g_id a = g_id b -> a = b.
+Proof. intros H. apply NoDup_map_inj. apply ids_increasing_NoDup. exact H. Qed.
+
+Lemma find_mseg_In id l g : find_mseg id l = Some g -> In g l /\ g_id g = id.
+Proof.
+  unfold find_mseg. intros H. apply find_some in H. destruct H as [HIn E].
+  apply N.eqb_eq in E. split; assumption.
+Qed.
+
+Lemma find_mseg_None id l : find_mseg id l = None -> forall g, In g l -> g_id g <> id.
+Proof.
+  unfold find_mseg. intros H g Hg E. pose proof (find_none _ _ H g Hg) as Hn. cbn beta in Hn.
+  apply N.eqb_neq in Hn. congruence.
+Qed.
+
+Lemma find_mseg_unique l g : ids_increasing l -> In g l -> find_mseg (g_id g) l = Some g.
+Proof.
+  intros Hinc HIn. destruct (find_mseg (g_id g) l) as [g'|] eqn:E.
+  - apply find_mseg_In in E. destruct E as [HIn' E]. f_equal. eapply ids_increasing_unique; eassumption.
+  - exfalso. exact (find_mseg_None _ _ E g HIn eq_refl).
+Qed.
+
+Lemma In_upd_mseg id F l g' :
+  In g' (upd_mseg id F l) <-> exists g, In g l /\ g' = if g_id g =? id then F g else g.
+Proof.
+  unfold upd_mseg. rewrite in_map_iff. split; intros (g & A & B); exists g; split; auto.
+Qed.
+
+Lemma ids_increasing_map (F : mseg -> mseg) l :
+  (forall g, g_id (F g) = g_id g) -> ids_increasing l -> ids_increasing (map F l).
+Proof.
+  intros HF. induction l as [|g l IH]; intros H; [exact Logic.I|].
+  destruct H as [Hg Hl]. cbn [map ids_increasing]. split; [|apply IH; exact Hl].
+  intros g' Hg'. apply in_map_iff in Hg'. destruct Hg' as (g0 & <- & Hg0). rewrite !HF. apply Hg. exact Hg0.
+Qed.
+
+Lemma insert_mseg_In g l x : In x (insert_mseg g l) <-> x = g \/ In x l.
+Proof.
+  induction l as [|y l IH]; cbn [insert_mseg].
+  - cbn [In]. intuition congruence.
+  - destruct (g_id g <? g_id y); cbn [In]; [intuition congruence|]. rewrite IH. intuition congruence.
+Qed.
+
+Lemma insert_mseg_increasing g l :
+  ids_increasing l -> (forall x, In x l -> g_id x <> g_id g) -> ids_increasing (insert_mseg g l).
+Proof.
+  induction l as [|y l IH]; intros Hinc Hfresh; cbn [insert_mseg].
+  - cbn [ids_increasing]. split; [intros ? []|exact Logic.I].
+  - destruct Hinc as [Hy Hl]. destruct (N.ltb_spec (g_id g) (g_id y)) as [Hlt|Hge].
+    + cbn [ids_increasing]. split; [|split; assumption].
+      intros x [<-|Hx]; [exact Hlt|]. pose proof (Hy x Hx). lia.
+    + cbn [ids_increasing]. split.
+      * intros x Hx. apply insert_mseg_In in Hx. destruct Hx as [->|Hx]; [|apply Hy; exact Hx].
+        pose proof (Hfresh y (or_introl eq_refl)). lia.
+      * apply IH; [exact Hl|]. intros x Hx. apply Hfresh. right. exact Hx.
+Qed.
+
+Lemma lowest_free_spec l : forall n,
+  ids_increasing l -> (forall g, In g l -> n <= g_id g) ->
+  n <= lowest_free n l /\ forall g, In g l -> g_id g <> lowest_free n l.
+Proof.
+  induction l as [|x l IH]; intros n Hinc Hge; cbn [lowest_free].
+  - split; [lia|intros ? []].
+  - destruct Hinc as [Hx Hl]. destruct (N.eqb_spec (g_id x) n) as [E|Hne].
+    + destruct (IH (n + 1) Hl) as [H1 H2].
+      { intros g Hg. pose proof (Hx g Hg). lia. }
+      split; [lia|]. intros g [<-|Hg]; [lia|apply H2; exact Hg].
+    + split; [lia|]. pose proof (Hge x (or_introl eq_refl)).
+      intros g [<-|Hg]; [exact Hne|]. pose proof (Hx g Hg). lia.
+Qed.
+
+Lemma lowest_free_fresh l g : ids_increasing l -> In g l -> g_id g <> lowest_free 0 l.
+Proof. intros Hinc. apply (lowest_free_spec l 0 Hinc). intros ? _. lia. Qed.
+
+Lemma cur_seg_Some (m : mem) g :
+  cur_seg m = Some g ->
+  m_cur_removed m = false /\ In g (m_segs m) /\ g_id g = fst (m_cur m) /\ g_seq g = snd (m_cur m).
+Proof.
+  unfold cur_seg. destruct (m_cur_removed m); [discriminate|].
+  destruct (find_mseg (fst (m_cur m)) (m_segs m)) as [g'|] eqn:E; [|discriminate].
+  destruct (N.eqb_spec (g_seq g') (snd (m_cur m))) as [Es|_]; [|discriminate].
+  intros H. inversion H; subst g'. apply find_mseg_In in E. destruct E as [HIn E].
+  repeat split; assumption.
+Qed.
+
+Lemma cur_seg_intro (m : mem) g :
+  ids_increasing (m_segs m) -> m_cur_removed m = false -> In g (m_segs m) ->
+  m_cur m = (g_id g, g_seq g) -> cur_seg m = Some g.
+Proof.
+  intros Hinc Hr HIn Hc. unfold cur_seg. rewrite Hr, Hc. cbn [fst snd].
+  rewrite (find_mseg_unique _ _ Hinc HIn), N.eqb_refl. reflexivity.
+Qed.
+
+(* ---- the part of the invariant that the log writer maintains ---- *)
+Definition InvLog (m : mem) (d : disk) : Prop :=
+  DiskOK d /\ mem_disk_agree m d /\ ids_increasing (m_segs m) /\ seq_order m /\ cur_ok m.
+
+Lemma Inv_InvLog P (s : st) m : s_mem s = Some m -> Inv P s -> InvLog m (s_disk s).
+Proof. unfold Inv. intros ->. unfold InvLog. tauto. Qed.
+
+Lemma InvLog_same_log (m : mem) d d' : same_log d d' -> InvLog m d -> InvLog m d'.
+Proof.
+  intros H (H1 & H2 & H3). split; [eapply same_log_DiskOK; eassumption|].
+  split; [eapply same_log_mem_disk_agree; eassumption|exact H3].
+Qed.
+
+(* changes of the per-segment counters: ids, sequence ids and sizes stay, "full" only gets set *)
+Definition mseg_sim (g g' : mseg) : Prop :=
+  g_id g' = g_id g /\ g_seq g' = g_seq g /\ g_size g' = g_size g /\
+  (sm_full (g_meta g) = true -> sm_full (g_meta g') = true).
+
+Definition mem_sim (m m' : mem) : Prop :=
+  (exists F, (forall g, mseg_sim g (F g)) /\ m_segs m' = map F (m_segs m)) /\
+  m_cur m' = m_cur m /\ m_cur_removed m' = m_cur_removed m /\ m_maxseq m' = m_maxseq m.
+
+Lemma mseg_sim_refl g : mseg_sim g g. Proof. repeat split; auto. Qed.
+
+Lemma mem_sim_refl (m : mem) : mem_sim m m.
+Proof.
+  split; [|auto]. exists (fun g => g). split; [apply mseg_sim_refl|]. rewrite map_id. reflexivity.
+Qed.
+
+Lemma mem_sim_trans (a b c : mem) : mem_sim a b -> mem_sim b c -> mem_sim a c.
+Proof.
+  intros ((F & HF & EF) & A1 & A2 & A3) ((G & HG & EG) & B1 & B2 & B3).
+  split; [|repeat split; congruence].
+  exists (fun g => G (F g)). split.
+  - intros g. destruct (HF g) as (F1 & F2 & F3 & F4). destruct (HG (F g)) as (G1 & G2 & G3 & G4).
+    repeat split; try congruence. auto.
+  - rewrite EG, EF, map_map. reflexivity.
+Qed.
+
+Lemma mem_sim_upd_mseg (m : mem) id F :
+  (forall g, mseg_sim g (F g)) -> mem_sim m (set_msegs m (upd_mseg id F (m_segs m))).
+Proof.
+  intros HF. split; [|auto]. exists (fun g => if g_id g =? id then F g else g). split; [|reflexivity].
+  intros g. destruct (g_id g =? id); [apply HF|apply mseg_sim_refl].
+Qed.
+
+Lemma mem_sim_set_idx (m : mem) i : mem_sim m (set_idx m i).
+Proof. split; [|auto]. exists (fun g => g). split; [apply mseg_sim_refl|]. cbn [set_idx m_segs]. rewrite map_id. reflexivity. Qed.
+
+Lemma mem_sim_InvLog (m m' : mem) d : mem_sim m m' -> InvLog m d -> InvLog m' d.
+Proof.
+  intros ((F & HF & EF) & Ec & Er & Em) (Hd & [Ha1 Ha2] & Hinc & [Hs1 Hs2] & Hcur).
+  assert (Hin : forall g', In g' (m_segs m') <-> exists g, In g (m_segs m) /\ g' = F g).
+  { intros g'. rewrite EF, in_map_iff. split; intros (g & A & B); exists g; split; auto. }
+  split; [exact Hd|]. split; [|split; [|split]].
+  - split.
+    + intros g' Hg'. apply Hin in Hg'. destruct Hg' as (g & Hg & ->).
+      destruct (HF g) as (F1 & F2 & F3 & _). rewrite F1, F2, F3. apply Ha1. exact Hg.
+    + intros f Hf. destruct (Ha2 f Hf) as (g & Hg & A1 & A2). exists (F g).
+      destruct (HF g) as (F1 & F2 & _). split; [apply Hin; exists g; auto|]. split; congruence.
+  - rewrite EF. apply ids_increasing_map; [|exact Hinc]. intros g. apply (HF g).
+  - split.
+    + intros g' Hg'. apply Hin in Hg'. destruct Hg' as (g & Hg & ->).
+      destruct (HF g) as (_ & F2 & _). rewrite F2, Em. apply Hs1. exact Hg.
+    + intros g1' g2' H1 H2 Hnf. apply Hin in H1. apply Hin in H2.
+      destruct H1 as (g1 & Hg1 & ->). destruct H2 as (g2 & Hg2 & ->).
+      destruct (HF g1) as (_ & A2 & _ & A4). destruct (HF g2) as (_ & B2 & _). rewrite A2, B2.
+      apply Hs2; try assumption. destruct (sm_full (g_meta g1)); [|reflexivity].
+      rewrite A4 in Hnf by reflexivity. discriminate.
+  - unfold cur_ok. rewrite Er, Ec. intros Hr. destruct (Hcur Hr) as (g & Hg & A1 & A2).
+    exists (F g). destruct (HF g) as (F1 & F2 & _). split; [apply Hin; exists g; auto|]. split; congruence.
+Qed.
+
+Lemma mem_sim_room (m m' : mem) : mem_sim m m' -> room m -> room m'.
+Proof.
+  intros ((F & HF & EF) & _) Hr g' Hg'. rewrite EF in Hg'. apply in_map_iff in Hg'.
+  destruct Hg' as (g & <- & Hg). destruct (HF g) as (_ & _ & F3 & _). rewrite F3. apply Hr. exact Hg.
+Qed.
+
+Lemma mem_sim_track_del sl (m : mem) : mem_sim m (track_del sl m).
+Proof. unfold track_del. apply mem_sim_upd_mseg. intros g. repeat split; auto. Qed.
+
+Lemma mem_sim_add_delbytes id n (m : mem) : mem_sim m (add_delbytes id n m).
+Proof. unfold add_delbytes. apply mem_sim_upd_mseg. intros g. repeat split; auto. Qed.
+
+Theorem track_del_InvLog sl (m : mem) d : InvLog m d -> InvLog (track_del sl m) d.
+Proof. apply mem_sim_InvLog, mem_sim_track_del. Qed.
+Theorem track_del_room sl (m : mem) : room m -> room (track_del sl m).
+Proof. apply mem_sim_room, mem_sim_track_del. Qed.
+Theorem add_delbytes_InvLog id n (m : mem) d : InvLog m d -> InvLog (add_delbytes id n m) d.
+Proof. apply mem_sim_InvLog, mem_sim_add_delbytes. Qed.
+Theorem add_delbytes_room id n (m : mem) : room m -> room (add_delbytes id n m).
+Proof. apply mem_sim_room, mem_sim_add_delbytes. Qed.
+Lemma set_idx_InvLog i (m : mem) d : InvLog m d -> InvLog (set_idx m i) d.
+Proof. apply mem_sim_InvLog, mem_sim_set_idx. Qed.
+
+Lemma track_del_idx sl (m : mem) : m_idx (track_del sl m) = m_idx m /\ m_seed (track_del sl m) = m_seed m.
+Proof. split; reflexivity. Qed.
+Lemma add_delbytes_idx id n (m : mem) : m_idx (add_delbytes id n m) = m_idx m /\ m_seed (add_delbytes id n m) = m_seed m.
+Proof. split; reflexivity. Qed.
+
+(* ================================================================================================ *)
+(* 6. datalog.writeRecord                                                                             *)
+Lemma flen_append off r f : f_hdr f = true -> flen (append_seg off r f) = flen f + rsize r.
+Proof.
+  intros Hh. unfold flen, append_seg; cbn [f_hdr f_recs f_tail]. rewrite Hh, recs_len_snoc. lia.
+Qed.
+
+Lemma tail_stuck_nil : tail_stuck [].
+Proof. unfold tail_stuck. rewrite empty_tail. split; reflexivity. Qed.
+
+Lemma dseg_ok_append off r f :
+  dseg_ok f -> rec_fits r -> f_hdr f = true ->
+  header_size + recs_len (f_recs f) + rsize r < 4294967296 -> dseg_ok (append_seg off r f).
+Proof.
+  intros (H1 & H2 & H3 & H4 & H5) Hr Hh Hlt. unfold dseg_ok, append_seg; cbn [f_hdr f_recs f_tail].
+  split; [|split; [exact H2|split; [exact H3|split]]].
+  - apply Forall_app. split; [exact H1|]. constructor; [exact Hr|constructor].
+  - intros E. congruence.
+  - rewrite recs_len_snoc. lia.
+Qed.
+
+Lemma count_rec_full r sm : sm_full (count_rec r sm) = sm_full sm.
+Proof. unfold count_rec. destruct (rdel r); reflexivity. Qed.
+
+(* the append itself, on the current segment, which is not full *)
+Lemma append_step (m : mem) (d : disk) r g :
+  InvLog m d -> room m -> rec_fits r -> cur_seg m = Some g -> sm_full (g_meta g) = false ->
+  exists f,
+    find_dseg (g_id g) d = Some f /\ f_seq f = g_seq g /\ flen f = g_size g /\
+    g_size g < 4294967296 /\
+    let d' := apply_ev flat_ops d (EAppend (g_id g) (g_seq g) (g_size g) r) in
+    let m' := set_msegs m (upd_mseg (g_id g)
+                (fun x => set_gmeta (set_gsize x (g_size g + rsize r)) (count_rec r (g_meta x))) (m_segs m)) in
+    InvLog m' d' /\ olog d' = olog d ++ [(g_id g, g_size g, r)] /\
+    rec_of d' (g_id g) (g_size g) = Some r.
+Proof.
+  intros (Hd & [Ha1 Ha2] & Hinc & [Hs1 Hs2] & Hcur) Hroom Hr Hc Hnf.
+  destruct (cur_seg_Some _ _ Hc) as (Hrm & Hg & Hcid & Hcseq).
+  destruct (Ha1 g Hg) as (f & Hf & Efid & Efseq & Efh & Eft & Efl).
+  destruct Hd as (Hok & Hnid & Hnseq).
+  assert (Hfind : find_dseg (g_id g) d = Some f) by (rewrite <- Efid; apply find_dseg_unique; assumption).
+  assert (Esz : g_size g = header_size + recs_len (f_recs f)) by (rewrite <- Efl; apply flen_clean; assumption).
+  pose proof (Hroom g Hg) as Hrg. pose proof (rsize_le_max r Hr) as Hrs. consts.
+  assert (Hmax : forall x, In x (d_segs d) -> x <> f -> f_seq x < f_seq f).
+  { intros x Hx Hne. destruct (Ha2 x Hx) as (gx & Hgx & _ & E2).
+    pose proof (Hs2 g gx Hg Hgx Hnf) as Hle.
+    assert (f_seq x <> f_seq f); [|lia].
+    intros E. apply Hne. exact (NoDup_map_inj f_seq _ x f Hnseq Hx Hf E). }
+  exists f. split; [exact Hfind|]. split; [exact Efseq|]. split; [exact Efl|]. split; [lia|].
+  cbn zeta.
+  set (id := g_id g) in *. set (seq := g_seq g) in *. set (off := g_size g) in *.
+  set (F := fun s : dseg => if is_seg id seq s then append_seg off r s else s).
+  set (Fm := fun x : mseg => set_gmeta (set_gsize x (off + rsize r)) (count_rec r (g_meta x))).
+  assert (HFid : forall x, f_id (F x) = f_id x) by (intros x; unfold F; destruct (is_seg id seq x); reflexivity).
+  assert (HFseq : forall x, f_seq (F x) = f_seq x) by (intros x; unfold F; destruct (is_seg id seq x); reflexivity).
+  assert (HFf : F f = append_seg off r f).
+  { unfold F, is_seg. rewrite Efid, Efseq, !N.eqb_refl. reflexivity. }
+  assert (HFo : forall x, In x (d_segs d) -> f_id x <> id -> F x = x).
+  { intros x _ Hne. unfold F, is_seg. destruct (N.eqb_spec (f_id x) id); [congruence|reflexivity]. }
+  assert (HFx : forall x, In x (d_segs d) -> F x = x \/ (x = f /\ F x = append_seg off r f)).
+  { intros x Hx. destruct (N.eq_dec (f_id x) id) as [E|Hne]; [|left; apply HFo; assumption].
+    right. assert (x = f) by (apply (NoDup_map_inj f_id _ x f Hnid Hx Hf); congruence).
+    subst x. split; [reflexivity|exact HFf]. }
+  assert (Hsegs : d_segs (apply_ev flat_ops d (EAppend id seq off r)) = map F (d_segs d)) by reflexivity.
+  split; [|split].
+  - (* InvLog *)
+    split; [|split; [|split; [|split]]].
+    + (* DiskOK *)
+      unfold DiskOK. rewrite Hsegs. split; [|split].
+      * apply Forall_forall. intros x' Hx'. apply in_map_iff in Hx'. destruct Hx' as (x & <- & Hx).
+        fa Hok x Hx. destruct (HFx x Hx) as [->|[-> ->]]; [exact Hfa|].
+        apply dseg_ok_append; try assumption. lia.
+      * rewrite map_map. rewrite (map_ext _ f_id HFid). exact Hnid.
+      * rewrite map_map. rewrite (map_ext _ f_seq HFseq). exact Hnseq.
+    + (* mem_disk_agree *)
+      split.
+      * intros g' Hg'. cbn [m_segs set_msegs] in Hg'. apply In_upd_mseg in Hg'.
+        destruct Hg' as (g0 & Hg0 & ->). destruct (N.eqb_spec (g_id g0) id) as [E|Hne].
+        -- assert (g0 = g) by (apply (ids_increasing_unique _ g0 g Hinc Hg0 Hg); exact E). subst g0.
+           exists (append_seg off r f). rewrite Hsegs. split; [rewrite <- HFf; apply in_map; exact Hf|].
+           unfold Fm; cbn [g_id g_seq g_size set_gmeta set_gsize append_seg f_id f_seq f_hdr f_tail].
+           repeat split; try assumption.
+           change (flen (append_seg off r f) = off + rsize r). rewrite flen_append by exact Efh. lia.
+        -- destruct (Ha1 g0 Hg0) as (f0 & Hf0 & A1 & A2 & A3 & A4 & A5). exists f0. rewrite Hsegs.
+           split; [|repeat split; assumption]. rewrite <- (HFo f0 Hf0) by congruence. apply in_map. exact Hf0.
+      * intros x' Hx'. rewrite Hsegs in Hx'. apply in_map_iff in Hx'. destruct Hx' as (x & <- & Hx).
+        destruct (Ha2 x Hx) as (g0 & Hg0 & A1 & A2). rewrite HFid, HFseq.
+        exists (if g_id g0 =? id then Fm g0 else g0). split.
+        -- cbn [m_segs set_msegs]. apply In_upd_mseg. exists g0. split; [exact Hg0|reflexivity].
+        -- destruct (g_id g0 =? id); split; assumption.
+    + (* ids_increasing *)
+      cbn [m_segs set_msegs]. unfold upd_mseg. apply ids_increasing_map; [|exact Hinc].
+      intros x. destruct (g_id x =? id); reflexivity.
+    + (* seq_order *)
+      split.
+      * intros g' Hg'. cbn [m_segs set_msegs] in Hg'. apply In_upd_mseg in Hg'.
+        destruct Hg' as (g0 & Hg0 & ->). cbn [m_maxseq set_msegs].
+        pose proof (Hs1 g0 Hg0). destruct (g_id g0 =? id); exact H4.
+      * intros g1' g2' H1' H2' Hnf'. cbn [m_segs set_msegs] in H1', H2'.
+        apply In_upd_mseg in H1'. apply In_upd_mseg in H2'.
+        destruct H1' as (g1 & Hg1 & ->). destruct H2' as (g2 & Hg2 & ->).
+        assert (Hnf1 : sm_full (g_meta g1) = false).
+        { destruct (g_id g1 =? id); [|exact Hnf'].
+          unfold Fm in Hnf'; cbn [g_meta set_gmeta] in Hnf'. rewrite count_rec_full in Hnf'. exact Hnf'. }
+        pose proof (Hs2 g1 g2 Hg1 Hg2 Hnf1) as Hle.
+        destruct (g_id g1 =? id), (g_id g2 =? id); exact Hle.
+    + (* cur_ok *)
+      intros Hrm'. destruct (Hcur Hrm') as (g0 & Hg0 & A1 & A2).
+      exists (if g_id g0 =? id then Fm g0 else g0). split.
+      * cbn [m_segs set_msegs]. apply In_upd_mseg. exists g0. split; [exact Hg0|reflexivity].
+      * cbn [m_cur set_msegs]. destruct (g_id g0 =? id); split; assumption.
+  - (* olog *)
+    rewrite (olog_append d id seq off r f Hnid Hf Efid Efseq Hmax). rewrite <- Esz. reflexivity.
+  - (* the new record can be read *)
+    unfold rec_of. rewrite apply_ev_append.
+    rewrite (find_dseg_upd_seg_same id seq (append_seg off r) d f) by (try reflexivity; assumption).
+    unfold seg_entries, append_seg; cbn [f_recs]. rewrite Esz. apply rec_at_snoc_new.
+Qed.
+
+Lemma NoDup_snoc {A} (l : list A) x : NoDup l -> ~ In x l -> NoDup (l ++ [x]).
+Proof.
+  intros Hnd Hx. apply (Permutation_NoDup (l := x :: l)); [apply Permutation_cons_append|].
+  constructor; assumption.
+Qed.
+
+Lemma s_disk_emits es (s : st) : s_disk (emits flat_ops es s) = fold_left (apply_ev flat_ops) es (s_disk s).
+Proof. revert s. induction es as [|e es IH]; intros s; [reflexivity|]. cbn [emits fold_left]. apply (IH (emit flat_ops e s)). Qed.
+Lemma s_mem_emits es (s : st) : s_mem (emits flat_ops es s) = s_mem s.
+Proof. revert s. induction es as [|e es IH]; intros s; [reflexivity|]. cbn [emits fold_left]. apply (IH (emit flat_ops e s)). Qed.
+Lemma s_trace_emits es (s : st) : s_trace (emits flat_ops es s) = s_trace s ++ es.
+Proof.
+  revert s. induction es as [|e es IH]; intros s; [symmetry; apply app_nil_r|].
+  change (emits flat_ops (e :: es) s) with (emits flat_ops es (emit flat_ops e s)).
+  rewrite (IH (emit flat_ops e s)), s_trace_emit, <- app_assoc. reflexivity.
+Qed.
+
+(* sealSegment *)
+Lemma seal_spec (s : st) (m : mem) g :
+  ids_increasing (m_segs m) -> In g (m_segs m) ->
+  exists s0 m0 pre,
+    seal flat_ops (g_id g) s m = (s0, m0) /\ mem_sim m m0 /\ m_idx m0 = m_idx m /\ m_seed m0 = m_seed m /\
+    s_disk s0 = s_disk s /\ s_mem s0 = s_mem s /\ s_trace s0 = s_trace s ++ pre /\
+    (pre = [] \/ pre = [ESync (FSeg (g_id g) (g_seq g))]).
+Proof.
+  intros Hinc Hg. unfold seal. rewrite (find_mseg_unique _ _ Hinc Hg).
+  destruct (sm_full (g_meta g)) eqn:Ef.
+  - exists s, m, []. rewrite app_nil_r. repeat split; auto. apply mem_sim_refl.
+  - eexists _, _, [_]. split; [reflexivity|]. repeat split; auto.
+    apply mem_sim_upd_mseg. intros x. repeat split; auto.
+Qed.
+
+(* swapSegment *)
+Lemma swap_spec (s : st) (m : mem) :
+  InvLog m (s_disk s) -> room m ->
+  exists s1 m1 g pre,
+    swap_segment flat_ops s m = (s1, m1) /\
+    InvLog m1 (s_disk s1) /\ room m1 /\ cur_seg m1 = Some g /\ sm_full (g_meta g) = false /\
+    olog (s_disk s1) = olog (s_disk s) /\ same_rest (s_disk s) (s_disk s1) /\
+    s_mem s1 = s_mem s /\ m_idx m1 = m_idx m /\ m_seed m1 = m_seed m /\
+    s_trace s1 = s_trace s ++ pre /\ s_disk s1 = fold_left (apply_ev flat_ops) pre (s_disk s) /\
+    (pre = [] \/ pre = [ECreate (FSeg (g_id g) (g_seq g)); EHeader (FSeg (g_id g) (g_seq g))]).
+Proof.
+  intros HI Hroom. pose proof HI as (Hd & [Ha1 Ha2] & Hinc & [Hs1 Hs2] & Hcur).
+  unfold swap_segment.
+  destruct (find (fun g => negb (sm_full (g_meta g))) (m_segs m)) as [g|] eqn:Efind.
+  - (* reuse a segment that still accepts writes *)
+    apply find_some in Efind. destruct Efind as [Hg Hnf]. apply negb_true_iff in Hnf.
+    exists s, (set_cur m (g_id g, g_seq g) false), g, []. rewrite app_nil_r.
+    split; [reflexivity|]. split; [|split; [exact Hroom|split; [|repeat split; auto]]].
+    + split; [exact Hd|]. split; [split; assumption|]. split; [exact Hinc|]. split; [split; assumption|].
+      intros _. exists g. repeat split; auto.
+    + apply cur_seg_intro; auto.
+  - (* a new segment *)
+    assert (Hfull : forall x, In x (m_segs m) -> sm_full (g_meta x) = true).
+    { intros x Hx. pose proof (find_none _ _ Efind x Hx) as H. cbn beta in H.
+      apply negb_false_iff in H. exact H. }
+    set (id := lowest_free 0 (m_segs m)). set (seq := m_maxseq m + 1).
+    set (g := {| g_id := id; g_seq := seq; g_size := header_size; g_meta := smeta0 |}).
+    set (nf' := {| f_id := id; f_seq := seq; f_hdr := true; f_recs := []; f_tail := []; f_meta := @GAbsent smeta |}).
+    set (d := s_disk s) in *.
+    set (s1 := emits flat_ops [ECreate (FSeg id seq); EHeader (FSeg id seq)] s).
+    set (m1 := set_cur (set_maxseq (set_msegs m (insert_mseg g (m_segs m))) seq) (id, seq) false).
+    assert (Hd1 : s_disk s1 = apply_ev flat_ops (apply_ev flat_ops d (ECreate (FSeg id seq))) (EHeader (FSeg id seq)))
+      by reflexivity.
+    assert (Hfresh_id : forall x, In x (d_segs d) -> f_id x <> id).
+    { intros x Hx. destruct (Ha2 x Hx) as (gx & Hgx & E & _). rewrite <- E.
+      apply lowest_free_fresh; assumption. }
+    assert (Hfresh_seq : forall x, In x (d_segs d) -> f_seq x < seq).
+    { intros x Hx. destruct (Ha2 x Hx) as (gx & Hgx & _ & E). rewrite <- E.
+      pose proof (Hs1 gx Hgx). unfold seq. lia. }
+    assert (Hsegs : d_segs (s_disk s1) = d_segs d ++ [nf']).
+    { change (d_segs (s_disk s1)) with
+        (map (fun x : dseg => if is_seg id seq x
+                then {| f_id := f_id x; f_seq := f_seq x; f_hdr := true; f_recs := f_recs x;
+                        f_tail := f_tail x; f_meta := f_meta x |} else x)
+             (d_segs d ++ [{| f_id := id; f_seq := seq; f_hdr := false; f_recs := []; f_tail := [];
+                              f_meta := GAbsent |}])).
+      rewrite map_app. cbn [map].
+      unfold is_seg at 2; cbn [f_id f_seq]. rewrite !N.eqb_refl. cbn [andb].
+      f_equal. rewrite <- (map_id (d_segs d)) at 2. apply map_ext_in. intros x Hx.
+      unfold is_seg. destruct (N.eqb_spec (f_id x) id) as [E|_]; [|reflexivity].
+      exfalso. exact (Hfresh_id x Hx E). }
+    destruct Hd as (Hok & Hnid & Hnseq).
+    assert (HIn1 : forall x, In x (m_segs m1) <-> x = g \/ In x (m_segs m)).
+    { intros x. apply insert_mseg_In. }
+    assert (Hgid : forall x, In x (m_segs m) -> g_id x <> id).
+    { intros x Hx. apply lowest_free_fresh; assumption. }
+    exists s1, m1, g, [ECreate (FSeg id seq); EHeader (FSeg id seq)].
+    split; [reflexivity|]. consts.
+    split; [|split; [|split; [|split; [reflexivity|split; [|split; [|split; [|split; [reflexivity|split; [reflexivity|split; [|split; [reflexivity|right; reflexivity]]]]]]]]]]].
+    + (* InvLog *)
+      split; [|split; [|split; [|split]]].
+      * unfold DiskOK. rewrite Hsegs, !map_app. cbn [map f_id f_seq nf']. split; [|split].
+        -- apply Forall_app. split; [exact Hok|]. constructor; [|constructor].
+           unfold dseg_ok; cbn [f_recs f_tail f_hdr nf']. split; [constructor|].
+           split; [exact tail_stuck_nil|]. split; [constructor|]. split; [discriminate|].
+           rewrite recs_len_nil. lia.
+        -- apply NoDup_snoc; [exact Hnid|]. intros HIn. apply in_map_iff in HIn.
+           destruct HIn as (x & E & Hx). exact (Hfresh_id x Hx E).
+        -- apply NoDup_snoc; [exact Hnseq|]. intros HIn. apply in_map_iff in HIn.
+           destruct HIn as (x & E & Hx). pose proof (Hfresh_seq x Hx). lia.
+      * split.
+        -- intros x Hx. apply HIn1 in Hx. rewrite Hsegs. destruct Hx as [->|Hx].
+           ++ exists nf'. split; [apply in_or_app; right; left; reflexivity|].
+              repeat split.
+           ++ destruct (Ha1 x Hx) as (f0 & Hf0 & A). exists f0. split; [apply in_or_app; left; exact Hf0|exact A].
+        -- intros f0 Hf0. rewrite Hsegs in Hf0. apply in_app_or in Hf0. destruct Hf0 as [Hf0|[<-|[]]].
+           ++ destruct (Ha2 f0 Hf0) as (g0 & Hg0 & A). exists g0. split; [apply HIn1; right; exact Hg0|exact A].
+           ++ exists g. split; [apply HIn1; left; reflexivity|split; reflexivity].
+      * apply insert_mseg_increasing; [exact Hinc|exact Hgid].
+      * split.
+        -- intros x Hx. apply HIn1 in Hx. cbn [m_maxseq m1 set_cur set_maxseq].
+           destruct Hx as [->|Hx]; [cbn [g_seq g]; lia|]. pose proof (Hs1 x Hx). unfold seq. lia.
+        -- intros x y Hx Hy Hnf. apply HIn1 in Hx. apply HIn1 in Hy.
+           destruct Hx as [->|Hx]; [|rewrite (Hfull x Hx) in Hnf; discriminate].
+           destruct Hy as [->|Hy]; [lia|]. pose proof (Hs1 y Hy). cbn [g_seq g]. unfold seq. lia.
+      * intros _. exists g. split; [apply HIn1; left; reflexivity|split; reflexivity].
+    + (* room *)
+      intros x Hx. apply HIn1 in Hx. destruct Hx as [->|Hx]; [cbn [g_size g]; lia|apply Hroom; exact Hx].
+    + (* cur_seg *)
+      apply cur_seg_intro; try reflexivity.
+      * apply insert_mseg_increasing; [exact Hinc|exact Hgid].
+      * apply HIn1. left. reflexivity.
+    + rewrite Hd1. apply olog_create_header.
+    + rewrite Hd1. eapply same_rest_trans; [apply apply_ev_create_seg_rest|apply apply_ev_header_rest].
+    + apply s_mem_emits.
+    + apply s_trace_emits.
+Qed.
+
+(* the events that writeRecord issues before the append *)
+Definition wr_pre_shape (pre : list fsev) (id seq : N) : Prop :=
+  pre = [] \/ (exists i q, pre = [ESync (FSeg i q)]) \/
+  pre = [ECreate (FSeg id seq); EHeader (FSeg id seq)] \/
+  (exists i q, pre = [ESync (FSeg i q); ECreate (FSeg id seq); EHeader (FSeg id seq)]).
+
+(* writeRecord = choose the segment (seal, swap) ; append *)
+Definition wr_prelude (P : params) (r : rec) (s : st) (m : mem) : st * mem :=
+  let need_swap := match cur_seg m with
+                   | None => true
+                   | Some g => sm_full (g_meta g) || (p_maxseg P <? g_size g + rsize r)
+                   end in
+  if need_swap
+  then let '(s0, m0) := match cur_seg m with
+                        | Some g => seal flat_ops (g_id g) s m
+                        | None => (s, m)
+                        end in
+       swap_segment flat_ops s0 m0
+  else (s, m).
+
+Definition wr_tail (r : rec) (s1 : st) (m1 : mem) : option (st * mem * N * N) :=
+  match cur_seg m1 with
+  | None => None
+  | Some g =>
+    match find_dseg (g_id g) (s_disk s1) with
+    | None => None
+    | Some f =>
+      if negb ((f_seq f =? g_seq g) && (flen f =? g_size g)) then None
+      else
+        let off := g_size g in
+        let s2 := emit flat_ops (EAppend (g_id g) (g_seq g) off r) s1 in
+        let m2 := set_msegs m1 (upd_mseg (g_id g)
+                    (fun g => set_gmeta (set_gsize g (off + rsize r)) (count_rec r (g_meta g)))
+                    (m_segs m1)) in
+        Some (s2, m2, g_id g, u32 off)
+    end
+  end.
+
+Lemma write_record_eq P r (s : st) (m : mem) :
+  write_record flat_ops P r s m = let '(s1, m1) := wr_prelude P r s m in wr_tail r s1 m1.
+Proof. reflexivity. Qed.
+
+Lemma wr_prelude_spec P r (s : st) (m : mem) :
+  InvLog m (s_disk s) -> room m ->
+  exists s1 m1 g pre,
+    wr_prelude P r s m = (s1, m1) /\
+    InvLog m1 (s_disk s1) /\ room m1 /\ cur_seg m1 = Some g /\ sm_full (g_meta g) = false /\
+    olog (s_disk s1) = olog (s_disk s) /\ same_rest (s_disk s) (s_disk s1) /\
+    s_mem s1 = s_mem s /\ m_idx m1 = m_idx m /\ m_seed m1 = m_seed m /\
+    s_trace s1 = s_trace s ++ pre /\ s_disk s1 = fold_left (apply_ev flat_ops) pre (s_disk s) /\
+    wr_pre_shape pre (g_id g) (g_seq g).
+Proof.
+  intros HI Hroom. unfold wr_prelude. destruct (cur_seg m) as [g|] eqn:Ec.
+  - destruct (sm_full (g_meta g) || (p_maxseg P <? g_size g + rsize r)) eqn:En.
+    + destruct (cur_seg_Some _ _ Ec) as (_ & Hg & _).
+      assert (Hinc : ids_increasing (m_segs m)) by apply HI.
+      destruct (seal_spec s m g Hinc Hg) as (s0 & m0 & pre0 & E0 & Hsim & Ei0 & Esd0 & Ed0 & Em0 & Et0 & Hp0).
+      rewrite E0.
+      assert (HI0 : InvLog m0 (s_disk s0)) by (rewrite Ed0; eapply mem_sim_InvLog; eassumption).
+      assert (Hroom0 : room m0) by (eapply mem_sim_room; eassumption).
+      destruct (swap_spec s0 m0 HI0 Hroom0)
+        as (s1 & m1 & g1 & pre1 & E1 & HI1 & Hroom1 & Ec1 & Hnf1 & Eo1 & Hr1 & Em1 & Ei1 & Esd1 & Et1 & Ed1 & Hp1).
+      exists s1, m1, g1, (pre0 ++ pre1). split; [exact E1|].
+      split; [exact HI1|]. split; [exact Hroom1|]. split; [exact Ec1|]. split; [exact Hnf1|].
+      split; [congruence|]. split; [rewrite <- Ed0; exact Hr1|].
+      split; [congruence|]. split; [congruence|]. split; [congruence|].
+      split; [rewrite Et1, Et0, app_assoc; reflexivity|].
+      split.
+      * rewrite Ed1, Ed0, fold_left_app. destruct Hp0 as [->| ->]; reflexivity.
+      * unfold wr_pre_shape. destruct Hp0 as [->| ->], Hp1 as [->| ->]; cbn [app].
+        -- left. reflexivity.
+        -- right. right. left. reflexivity.
+        -- right. left. eauto.
+        -- right. right. right. eauto.
+    + apply orb_false_iff in En. destruct En as [Hnf _].
+      exists s, m, g, []. rewrite app_nil_r.
+      split; [reflexivity|]. split; [exact HI|]. split; [exact Hroom|]. split; [exact Ec|].
+      split; [exact Hnf|]. split; [reflexivity|]. split; [apply same_rest_refl|].
+      split; [reflexivity|]. split; [reflexivity|]. split; [reflexivity|]. split; [reflexivity|].
+      split; [reflexivity|]. left. reflexivity.
+  - destruct (swap_spec s m HI Hroom)
+      as (s1 & m1 & g1 & pre1 & E1 & HI1 & Hroom1 & Ec1 & Hnf1 & Eo1 & Hr1 & Em1 & Ei1 & Esd1 & Et1 & Ed1 & Hp1).
+    exists s1, m1, g1, pre1.
+    split; [exact E1|]. split; [exact HI1|]. split; [exact Hroom1|]. split; [exact Ec1|].
+    split; [exact Hnf1|]. split; [exact Eo1|]. split; [exact Hr1|].
+    split; [exact Em1|]. split; [exact Ei1|]. split; [exact Esd1|]. split; [exact Et1|].
+    split; [exact Ed1|].
+    unfold wr_pre_shape. destruct Hp1 as [->| ->]; [left; reflexivity|right; right; left; reflexivity].
+Qed.
+
+(* The central lemma.  [m] need not be [s_mem s] (db_delete calls writeRecord after trackDel). *)
+Theorem write_record_spec P r (s : st) (m : mem) :
+  params_ok P -> InvLog m (s_disk s) -> room m -> rec_fits r ->
+  exists s' m' id off,
+    write_record flat_ops P r s m = Some (s', m', id, off) /\
+    InvLog m' (s_disk s') /\
+    olog (s_disk s') = olog (s_disk s) ++ [(id, off, r)] /\
+    off < 4294967296 /\
+    rec_of (s_disk s') id off = Some r /\
+    (exists f, find_dseg id (s_disk s') = Some f /\ rec_at off (seg_entries f) = Some r) /\
+    (forall id' off' r', rec_of (s_disk s) id' off' = Some r' -> rec_of (s_disk s') id' off' = Some r') /\
+    (forall sl kv, read_kv (s_disk s) sl = Some kv -> read_kv (s_disk s') sl = Some kv) /\
+    m_idx m' = m_idx m /\ m_seed m' = m_seed m /\ s_mem s' = s_mem s /\
+    same_rest (s_disk s) (s_disk s') /\
+    exists seq pre,
+      s_trace s' = s_trace s ++ pre ++ [EAppend id seq off r] /\
+      s_disk s' = fold_left (apply_ev flat_ops) (pre ++ [EAppend id seq off r]) (s_disk s) /\
+      olog (fold_left (apply_ev flat_ops) pre (s_disk s)) = olog (s_disk s) /\
+      same_rest (s_disk s) (fold_left (apply_ev flat_ops) pre (s_disk s)) /\
+      wr_pre_shape pre id seq.
+Proof.
+  intros _ HI Hroom Hr. rewrite write_record_eq.
+  destruct (wr_prelude_spec P r s m HI Hroom)
+    as (s1 & m1 & g & pre & E1 & HI1 & Hroom1 & Ec1 & Hnf1 & Eo1 & Hr1 & Em1 & Ei1 & Esd1 & Et1 & Ed1 & Hp1).
+  rewrite E1.
+  destruct (append_step m1 (s_disk s1) r g HI1 Hroom1 Hr Ec1 Hnf1)
+    as (f & Hfind & Efseq & Efl & Hlt & HI2 & Eo2 & Hrec).
+  cbn zeta in HI2, Eo2, Hrec.
+  unfold wr_tail. rewrite Ec1, Hfind, Efseq, Efl, !N.eqb_refl. cbn [andb negb].
+  rewrite (u32_small _ Hlt).
+  eexists _, _, (g_id g), (g_size g). split; [reflexivity|].
+  rewrite s_disk_emit.
+  assert (Hd0 : DiskOK (s_disk s)) by apply HI.
+  assert (Hd2 : DiskOK (apply_ev flat_ops (s_disk s1) (EAppend (g_id g) (g_seq g) (g_size g) r))) by apply HI2.
+  assert (Hkeep : forall id' off' r', rec_of (s_disk s) id' off' = Some r' ->
+            rec_of (apply_ev flat_ops (s_disk s1) (EAppend (g_id g) (g_seq g) (g_size g) r)) id' off' = Some r').
+  { intros id' off' r' H. apply rec_of_olog; [apply Hd2|]. rewrite Eo2, Eo1.
+    apply in_or_app. left. apply rec_of_olog; [apply Hd0|exact H]. }
+  split; [exact HI2|]. split; [rewrite Eo2, Eo1; reflexivity|]. split; [exact Hlt|].
+  split; [exact Hrec|]. split.
+  { unfold rec_of in Hrec.
+    match type of Hrec with match ?X with _ => _ end = _ => destruct X as [f'|] eqn:Ef' end; [|discriminate].
+    exists f'. split; [reflexivity|exact Hrec]. }
+  split; [exact Hkeep|]. split.
+  { intros sl kv. rewrite !read_kv_rec_of.
+    destruct (rec_of (s_disk s) (sl_seg sl) (sl_off sl)) as [r'|] eqn:E; [|discriminate].
+    rewrite (Hkeep _ _ _ E). exact (fun H => H). }
+  split; [exact Ei1|]. split; [exact Esd1|]. split; [exact Em1|].
+  split; [eapply same_rest_trans; [exact Hr1|apply apply_ev_append_rest]|].
+  exists (g_seq g), pre. split; [rewrite s_trace_emit, Et1, app_assoc; reflexivity|].
+  split; [rewrite fold_left_app, <- Ed1; reflexivity|].
+  split; [rewrite <- Ed1; exact Eo1|]. split; [rewrite <- Ed1; exact Hr1|exact Hp1].
+Qed.
+
+(* ================================================================================================ *)
+(* 7. The index (flat) and the log                                                                    *)
+Definition khit (kf : slot -> key) (k : key) (sl : slot) : bool := key_eqb k (kf sl).
+
+(* index_agrees without the mem record *)
+Definition idx_agrees (P : params) (seed : N) (idx : flat) (d : disk) : Prop :=
+  Forall (slot_ok P d seed) idx /\
+  NoDup (map (slot_key d) idx) /\
+  (forall k, ptr_of d k =
+             option_map (fun sl => (sl_seg sl, sl_off sl)) (find (khit (slot_key d) k) idx)).
+
+Lemma index_agrees_eq P (m : mem) d : index_agrees P m d = idx_agrees P (m_seed m) (m_idx m) d.
+Proof. reflexivity. Qed.
+
+Lemma slot_ok_read P (d : disk) seed sl :
+  slot_ok P d seed sl ->
+  exists r, rec_of d (sl_seg sl) (sl_off sl) = Some r /\ rdel r = false /\
+            sl_ks sl = nlen (rk r) /\ sl_vs sl = nlen (rv r) /\ sl_h sl = p_hash P seed (rk r) /\
+            read_kv d sl = Some (rk r, rv r) /\ slot_key d sl = rk r.
+Proof.
+  intros H. apply slot_ok_rec_of in H. destruct H as (r & E & Hd & Hk & Hv & Hh).
+  assert (Er : read_kv d sl = Some (rk r, rv r)).
+  { rewrite read_kv_rec_of, E. cbn [option_map]. rewrite Hk, Hv, ntake_app_exact, ndrop_app_exact, ntake_nlen.
+    reflexivity. }
+  exists r. repeat split; try assumption. unfold slot_key. rewrite Er. reflexivity.
+Qed.
+
+(* the matchKey callback, restricted to the bucket with the right hash, is key equality --
+   for EVERY key k, also an over-long one *)
+Lemma hit_key P (d : disk) seed k sl :
+  DiskOK d -> slot_ok P d seed sl ->
+  fl_hit (p_hash P seed k) (matchf d k) sl = khit (slot_key d) k sl.
+Proof.
+  intros Hd H. destruct (slot_ok_read P d seed sl H) as (r & E & _ & Hk & _ & Hh & Er & Ek).
+  unfold fl_hit, matchf, khit. rewrite Er, Ek.
+  destruct (key_eqb k (rk r)) eqn:Ekk; [|rewrite !andb_false_r; reflexivity].
+  apply key_eqb_eq in Ekk. subst k. rewrite Hh, Hk, N.eqb_refl.
+  pose proof (rec_of_rec_fits d _ _ r Hd E) as (_ & _ & Hlen & _). consts.
+  rewrite u16_small by lia. rewrite N.eqb_refl. reflexivity.
+Qed.
+
+Lemma find_ext_in {A} (p q : A -> bool) l : (forall x, In x l -> p x = q x) -> find p l = find q l.
+Proof.
+  induction l as [|x l IH]; intros H; [reflexivity|]. cbn [find].
+  rewrite (H x (or_introl eq_refl)), IH; [reflexivity|]. intros y Hy. apply H. right. exact Hy.
+Qed.
+
+Lemma fl_replace_ext_in p q new l :
+  (forall x, In x l -> p x = q x) -> fl_replace p new l = fl_replace q new l.
+Proof.
+  induction l as [|x l IH]; intros H; [reflexivity|]. cbn [fl_replace].
+  rewrite (H x (or_introl eq_refl)), IH; [reflexivity|]. intros y Hy. apply H. right. exact Hy.
+Qed.
+
+Lemma fl_remove_ext_in p q l : (forall x, In x l -> p x = q x) -> fl_remove p l = fl_remove q l.
+Proof.
+  induction l as [|x l IH]; intros H; [reflexivity|]. cbn [fl_remove].
+  rewrite (H x (or_introl eq_refl)), IH; [reflexivity|]. intros y Hy. apply H. right. exact Hy.
+Qed.
+
+Lemma find_khit_None kf k l : find (khit kf k) l = None <-> ~ In k (map kf l).
+Proof.
+  induction l as [|x l IH]; cbn [find map In]; [tauto|].
+  destruct (khit kf k x) eqn:E; unfold khit in E.
+  - apply key_eqb_eq in E. split; [discriminate|]. intros H. exfalso. apply H. left. congruence.
+  - apply key_eqb_neq in E. rewrite IH. split; intros H; [intros [H1|H1]; [congruence|tauto]|tauto].
+Qed.
+
+Lemma find_khit_Some kf k l sl : find (khit kf k) l = Some sl -> In sl l /\ kf sl = k.
+Proof.
+  intros H. apply find_some in H. destruct H as [HIn E]. unfold khit in E. apply key_eqb_eq in E.
+  split; [exact HIn|congruence].
+Qed.
+
+Lemma find_khit_In kf l sl : NoDup (map kf l) -> In sl l -> find (khit kf (kf sl)) l = Some sl.
+Proof.
+  intros Hnd HIn. destruct (find (khit kf (kf sl)) l) as [sl'|] eqn:E.
+  - apply find_khit_Some in E. destruct E as [HIn' E]. f_equal.
+    exact (NoDup_map_inj kf l sl' sl Hnd HIn' HIn E).
+  - exfalso. apply find_khit_None in E. apply E. apply in_map. exact HIn.
+Qed.
+
+Lemma fl_replace_Some kf k new l : forall l' o,
+  kf new = k -> fl_replace (khit kf k) new l = Some (l', o) ->
+  In o l /\ kf o = k /\ map kf l' = map kf l /\ (forall x, In x l' -> x = new \/ In x l) /\
+  (forall k', find (khit kf k') l' = if key_eqb k' k then Some new else find (khit kf k') l).
+Proof.
+  induction l as [|x l IH]; intros l' o Hnew H; [discriminate|].
+  cbn [fl_replace] in H. destruct (khit kf k x) eqn:Ex; unfold khit in Ex.
+  - apply key_eqb_eq in Ex. inversion H; subst l' o. split; [left; reflexivity|]. split; [congruence|].
+    split; [cbn [map]; congruence|]. split; [intros y [<-|Hy]; [left; reflexivity|right; right; exact Hy]|].
+    intros k'. cbn [find].
+    assert (E1 : khit kf k' new = key_eqb k' k) by (unfold khit; rewrite Hnew; reflexivity).
+    assert (E2 : khit kf k' x = key_eqb k' k) by (unfold khit; rewrite <- Ex; reflexivity).
+    rewrite E1, E2. destruct (key_eqb k' k); reflexivity.
+  - destruct (fl_replace (khit kf k) new l) as [[l'' o']|] eqn:E; [|discriminate].
+    inversion H; subst l' o'. destruct (IH l'' o Hnew eq_refl) as (A1 & A2 & A3 & A4 & A5).
+    split; [right; exact A1|]. split; [exact A2|]. split; [cbn [map]; congruence|].
+    split; [intros y [<-|Hy]; [right; left; reflexivity|destruct (A4 y Hy); [left|right; right]; assumption]|].
+    intros k'. cbn [find]. rewrite A5.
+    destruct (khit kf k' x) eqn:Ek'; [|reflexivity].
+    unfold khit in Ek'. apply key_eqb_eq in Ek'. subst k'. rewrite key_eqb_sym, Ex. reflexivity.
+Qed.
+
+Lemma fl_replace_None p new l : fl_replace p new l = None -> forall x, In x l -> p x = false.
+Proof.
+  induction l as [|x l IH]; intros H y Hy; [destruct Hy|]. cbn [fl_replace] in H.
+  destruct (p x) eqn:Ex; [discriminate|].
+  destruct (fl_replace p new l) as [[? ?]|]; [discriminate|].
+  destruct Hy as [<-|Hy]; [exact Ex|apply IH; [reflexivity|exact Hy]].
+Qed.
+
+Lemma find_app {A} (p : A -> bool) l1 l2 :
+  find p (l1 ++ l2) = match find p l1 with Some x => Some x | None => find p l2 end.
+Proof.
+  induction l1 as [|x l1 IH]; [reflexivity|]. cbn [app find]. destruct (p x); [reflexivity|exact IH].
+Qed.
+
+Lemma find_khit_snoc kf k new l k' :
+  (forall x, In x l -> khit kf k x = false) -> kf new = k ->
+  find (khit kf k') (l ++ [new]) = if key_eqb k' k then Some new else find (khit kf k') l.
+Proof.
+  intros Hno Hnew. rewrite find_app. cbn [find].
+  assert (E1 : khit kf k' new = key_eqb k' k) by (unfold khit; rewrite Hnew; reflexivity).
+  rewrite E1. destruct (key_eqb k' k) eqn:E.
+  - apply key_eqb_eq in E. subst k'. rewrite (proj2 (find_khit_None kf k l)); [reflexivity|].
+    intros HIn. apply in_map_iff in HIn. destruct HIn as (x & Ex & Hx). pose proof (Hno x Hx) as Hf.
+    unfold khit in Hf. rewrite Ex, key_eqb_refl in Hf. discriminate.
+  - destruct (find (khit kf k') l); reflexivity.
+Qed.
+
+Lemma fl_remove_Some kf k l : forall l' o,
+  NoDup (map kf l) -> fl_remove (khit kf k) l = Some (l', o) ->
+  In o l /\ kf o = k /\ (forall x, In x l' -> In x l) /\ NoDup (map kf l') /\
+  (forall k', find (khit kf k') l' = if key_eqb k' k then None else find (khit kf k') l).
+Proof.
+  induction l as [|x l IH]; intros l' o Hnd H; [discriminate|].
+  cbn [map] in Hnd. inversion Hnd as [|? ? Hx Hnd']; subst.
+  cbn [fl_remove] in H. destruct (khit kf k x) eqn:Ex; unfold khit in Ex.
+  - apply key_eqb_eq in Ex. inversion H; subst l' o. split; [left; reflexivity|]. split; [congruence|].
+    split; [intros y Hy; right; exact Hy|]. split; [exact Hnd'|].
+    intros k'. cbn [find].
+    assert (E2 : khit kf k' x = key_eqb k' k) by (unfold khit; rewrite <- Ex; reflexivity).
+    rewrite E2. destruct (key_eqb k' k) eqn:E; [|reflexivity].
+    apply key_eqb_eq in E. subst k'. apply find_khit_None. congruence.
+  - destruct (fl_remove (khit kf k) l) as [[l'' o']|] eqn:E; [|discriminate].
+    inversion H; subst l' o'. destruct (IH l'' o Hnd' eq_refl) as (A1 & A2 & A3 & A4 & A5).
+    split; [right; exact A1|]. split; [exact A2|].
+    split; [intros y [<-|Hy]; [left; reflexivity|right; apply A3; exact Hy]|].
+    split.
+    + cbn [map]. constructor; [|exact A4]. intros HIn. apply Hx. apply in_map_iff in HIn.
+      destruct HIn as (y & Ey & Hy). rewrite <- Ey. apply in_map. apply A3. exact Hy.
+    + intros k'. cbn [find]. rewrite A5.
+      destruct (khit kf k' x) eqn:Ek'; [|reflexivity].
+      unfold khit in Ek'. apply key_eqb_eq in Ek'. subst k'. rewrite key_eqb_sym, Ex. reflexivity.
+Qed.
+
+Lemma fl_remove_None p l : fl_remove p l = None -> forall x, In x l -> p x = false.
+Proof.
+  induction l as [|x l IH]; intros H y Hy; [destruct Hy|]. cbn [fl_remove] in H.
+  destruct (p x) eqn:Ex; [discriminate|].
+  destruct (fl_remove p l) as [[? ?]|]; [discriminate|].
+  destruct Hy as [<-|Hy]; [exact Ex|apply IH; [reflexivity|exact Hy]].
+Qed.
+
+(* slots keep their meaning when the log only grows *)
+Lemma slot_keep P (d d1 : disk) seed sl :
+  (forall id off r, rec_of d id off = Some r -> rec_of d1 id off = Some r) ->
+  slot_ok P d seed sl ->
+  slot_ok P d1 seed sl /\ read_kv d1 sl = read_kv d sl /\ slot_key d1 sl = slot_key d sl.
+Proof.
+  intros Hkeep H. pose proof H as H0. apply slot_ok_rec_of in H. destruct H as (r & E & Hr).
+  pose proof (Hkeep _ _ _ E) as E1.
+  assert (Er : read_kv d1 sl = read_kv d sl) by (rewrite !read_kv_rec_of, E, E1; reflexivity).
+  split; [apply slot_ok_rec_of; exists r; split; assumption|]. split; [exact Er|].
+  unfold slot_key. rewrite Er. reflexivity.
+Qed.
+
+Lemma idx_keys_keep P (d d1 : disk) seed idx :
+  (forall id off r, rec_of d id off = Some r -> rec_of d1 id off = Some r) ->
+  Forall (slot_ok P d seed) idx ->
+  Forall (slot_ok P d1 seed) idx /\ map (slot_key d1) idx = map (slot_key d) idx /\
+  (forall k, find (khit (slot_key d1) k) idx = find (khit (slot_key d) k) idx).
+Proof.
+  intros Hkeep Hok. split; [|split].
+  - apply Forall_forall. intros sl Hsl. fa Hok sl Hsl. apply (slot_keep P d d1 seed sl Hkeep Hfa).
+  - apply map_ext_in. intros sl Hsl. fa Hok sl Hsl. apply (slot_keep P d d1 seed sl Hkeep Hfa).
+  - intros k. apply find_ext_in. intros sl Hsl. fa Hok sl Hsl. unfold khit.
+    rewrite (proj2 (proj2 (slot_keep P d d1 seed sl Hkeep Hfa))). reflexivity.
+Qed.
+
+(* what a lookup finds *)
+Lemma idx_get_find P seed idx (d : disk) k :
+  DiskOK d -> Forall (slot_ok P d seed) idx ->
+  fl_get idx (p_hash P seed k) (matchf d k) = find (khit (slot_key d) k) idx.
+Proof.
+  intros Hd Hok. unfold fl_get. apply find_ext_in. intros sl Hsl. fa Hok sl Hsl.
+  apply hit_key; assumption.
+Qed.
+
+Theorem idx_lookup P seed idx (d : disk) k :
+  DiskOK d -> idx_agrees P seed idx d ->
+  match find (khit (slot_key d) k) idx with
+  | None => sget (abs d) k = None
+  | Some sl => In sl idx /\ exists v, read_kv d sl = Some (k, v) /\ sget (abs d) k = Some v
+  end.
+Proof.
+  intros Hd (Hok & Hnd & Hptr). specialize (Hptr k).
+  destruct (find (khit (slot_key d) k) idx) as [sl|] eqn:E; cbn [option_map] in Hptr.
+  - apply find_khit_Some in E. destruct E as [HIn Ek]. split; [exact HIn|].
+    apply ptr_of_Some in Hptr. destruct Hptr as (r & Hlog & Erk & _ & Eget).
+    fa Hok sl HIn. destruct (slot_ok_read P d seed sl Hfa) as (r' & Er' & _ & _ & _ & _ & Erd & _).
+    apply rec_of_olog in Hlog; [|apply Hd]. assert (r' = r) by congruence. subst r'.
+    exists (rv r). rewrite Erd, Erk. split; [reflexivity|exact Eget].
+  - apply ptr_of_None. exact Hptr.
 Qed.
